@@ -168,7 +168,7 @@ def run(tier, seed):
         # distance`, loop indices need `i < data_len`.  What a caller guarantees about data_len (a guard at the call site) counts.
         rid = rep.rule("R3", "slice discipline: a function given (data, data_len) reads data[k .. k+w) only under facts implying k + w <= data_len", 10)
         from ..lin import Lin, linform
-        SLICES = [("process_level0_extended_area", 1, 2), ("process_level0_unix_area", 1, 2), ("process_level0_os9_area", 1, 2), ("check_l0_checksum", 0, 1),
+        SLICES = [("process_level0_extended_area", 1, 2),
                   ("process_level0_path", 1, 2)]
         WIDTHS = {"lha_decode_uint16": 2, "lha_decode_uint32": 4, "lha_decode_uint64": 8, "lha_decode_be_uint16": 2, "lha_decode_be_uint32": 4}
 
@@ -212,6 +212,8 @@ def run(tier, seed):
             fn = mod.fn(fname)
             if fn is None:
                 continue            # folded into its caller by a refactoring: its reads are then the caller's (raw-data accesses, A-rawdata)
+            if len(fn.params) <= max(pi, li_) or fn.params[pi].ty != "i8*" or (mod.int_bits(fn.params[li_].ty) or 0) < 32:
+                continue            # no longer a (byte pointer, length) window: its reads are raw-data accesses of whatever it receives (A-rawdata)
             F, M = ctx.facts(fn), Matcher(fn)
             P, L = fn.params[pi], fn.params[li_]
 
